@@ -66,8 +66,11 @@ def infer_redirection(url, recursive=True):
         obvious_redirect_match = re.search(OBVIOUS_REDIRECTS_RE, url)
 
         if obvious_redirect_match is not None:
-            if obvious_redirect_match.group(1) == "q":
-                if "/url?q=" not in url and "/redirect" not in url:
+            # NOTE: keys are matched whatever their letter case
+            if obvious_redirect_match.group(1).lower() == "q":
+                lowered = url.lower()
+
+                if "/url?q=" not in lowered and "/redirect" not in lowered:
                     return original_url
 
             potential_target = unquote(obvious_redirect_match.group(2))
